@@ -268,10 +268,12 @@ impl<T> State<T> {
     pub closed spec fn wake_fd(&self) -> int { self.sender.wake_up.raw() }
     pub closed spec fn tx(&self) -> mpsc::Sender<Runnable<usize>> { mutex_content(&self.sender.sender) }
     pub closed spec fn rx(&self) -> &mpsc::Receiver<Runnable<usize>> { &self.incoming }
+    pub closed spec fn flag(&self) -> &AtomicBool { &self.sender.notified }
 }
 //@ endregion
 //@ item src/sources/futures.rs / fn executor props=C10 ret=r
 //@ rw R23 * <<wake_up.clone()>> => <<ping_clone(&wake_up)>>
+//@ rw R19 * <<AtomicBool::new(>> => <<atomic_new(>>
 //@ spec
     ensures
         r matches Ok(p) ==> {
@@ -282,6 +284,9 @@ impl<T> State<T> {
             &&& p.0.st().wake_fd() == p.0.src().raw()
             &&& p.0.own_fd() == p.0.src().raw()
             &&& queue_of_tx(&p.0.st().tx()) == queue_of_rx(p.0.st().rx())
+            // the "already notified" flag starts CLEAR: the very first wake writes the eventfd (were it set, no waker would
+            // ever ping the executor)
+            &&& !atomic_init(p.0.st().flag())
         },
 //@ enditem
 
